@@ -179,6 +179,10 @@ func (root *Schema) Resolve(opts *ResolveOptions) (*Resolved, error) {
 		if err != nil {
 			return nil, fmt.Errorf("parsing base URI: %w", err)
 		}
+		// Put the base URI in the form that resolving a reference against it gives
+		// (no dot segments), so that the root is found under the URI that references
+		// to it resolve to.
+		base = base.ResolveReference(&url.URL{})
 	}
 
 	if r.opts.Loader == nil {
